@@ -50,6 +50,10 @@ def run(ctx: Ctx):
 
     res.rule("AXIS-FAMILY", "tensordot (core, einsum) and _validate_contraction_modes: an axis number of one tensor is only combined (indexing, membership, negative-axis normalisation, transpose) with the shape / ndim / axis lists of the same tensor", floor=20)
     ctx.guarded(run_family, ctx, "AXIS-FAMILY")
+    from .lineq import broadcast_arity
+
+    res.rule("BROADCAST-ARITY", "core outer / batched_outer: at every broadcast product reshape(a, s1) * reshape(b, s2) the two target shapes have the same number of entries in every loop iteration -- decided with an affine-relation (Karr) analysis over integer locals, tuple lengths and array ranks (first iteration peeled, loop iterated to a fixpoint)", floor=2)
+    ctx.guarded(broadcast_arity, ctx, "BROADCAST-ARITY")
 
 
 def registry(ctx: Ctx):
